@@ -8,6 +8,7 @@
 import ClientGoVerif.Proofs.MvccStable
 import ClientGoVerif.Proofs.MvccScanSplit
 import ClientGoVerif.Proofs.MvccSI
+import ClientGoVerif.Proofs.MvccPhantom
 namespace CGV.Props.C05
 open CGV CGV.Mvcc
 
@@ -76,5 +77,18 @@ theorem snapshot_read_stable_every_run (ts : Nat) (k : Bytes) (s : Store) (cs : 
     (hserved : getValue (getEntry s.kv k) k ts true rs = .ok v) (hg : SIGuardAll ts k rs s cs) :
     firstVisible (getEntry (runAll s cs).kv k).writes ts = v :=
   served_read_is_snapshot ts k s cs rs v hs hok hts hserved hg
+
+/-- no phantoms: two store states that answer every single key alike at `ts` answer every range scan at `ts` alike —
+    keys present in only one of them make no difference -/
+theorem scan_determined_by_point_reads (s s' : Store) (a b : Bytes) (limit ts : Nat) (si : Bool) (rs : List Nat)
+    (hs : KvSorted s.kv) (hs' : KvSorted s'.kv) (hv : ∀ k, view s' ts si rs k = view s ts si rs k) :
+    scan s' a b limit ts si rs = scan s a b limit ts si rs :=
+  scan_determined_by_views s s' a b limit ts si rs hs hs' hv
+
+/-- repeatable range reads over every run (keys created or collected in between included) -/
+theorem range_scan_stable_every_run (ts : Nat) (s : Store) (cs : List Cmd) (a b : Bytes) (limit : Nat) (rs : List Nat)
+    (hs : SInv s) (hok : OkAll s cs) (hg : ∀ k, GuardAll (fun e lab => lab.keepsReads ts e) k s cs) :
+    scan (runAll s cs) a b limit ts false rs = scan s a b limit ts false rs :=
+  scan_stable_over_runs ts s cs a b limit rs hs hok hg
 
 end CGV.Props.C05
